@@ -120,10 +120,16 @@ def value_matrix(ctx, h, rng, full_lengths):
         combos = [frozenset(s) for s in (["default"], ["value"], ["store"], ["callback"], ["default", "value"],
                                          ["default", "store"], ["value", "store"], ["default", "value", "store", "callback"],
                                          ["store", "callback"], ["default", "callback"])]
+        if getattr(o, "array_style", None) == "templated" and vm.sub > 1:
+            # an element generated from the array's first one has no dictionary object of its own to configure: it is served
+            # from the store, from callbacks, or (nothing else given) with the first element's default
+            combos = [frozenset(["store"]), frozenset(["callback"]), frozenset(["store", "callback"])]
         lengths = [None]
         if blobby and full_lengths:
             lengths = list(range(0, 65))
             combos = [frozenset(["store"]), frozenset(["default"]), frozenset(["callback"])]
+        if getattr(o, "array_style", None) == "templated" and vm.sub > 1:
+            combos = [cset for cset in combos if not cset & {"default", "value"}]
         for srcs in combos:
             for ln in lengths:
                 vals = {}
@@ -138,8 +144,9 @@ def value_matrix(ctx, h, rng, full_lengths):
                             else:
                                 v = bytes(rng.getrandbits(8) for _ in range(ln))
                         vals[s] = v
-                odv.default = vals.get("default")
-                odv.value = vals.get("value")
+                if not (getattr(o, "array_style", None) == "templated" and vm.sub > 1):
+                    odv.default = vals.get("default")
+                    odv.value = vals.get("value")
                 h.node.data_store.get(vm.index, {}).pop(vm.sub, None)
                 if "store" in vals:
                     h.node.data_store.setdefault(vm.index, {})[vm.sub] = expected_bytes(dt, vals["store"])
@@ -173,7 +180,8 @@ def value_matrix(ctx, h, rng, full_lengths):
                 h.flush_findings(case)
                 if len(ctx.samples) < 3 and len(want) in (0, 5):
                     ctx.sample({"case": case, "wire": h.rig.wire(6)})
-        odv.default, odv.value = vm.default, vm.value
+        if not (getattr(o, "array_style", None) == "templated" and vm.sub > 1):
+            odv.default, odv.value = vm.default, vm.value
         h.cb_values.clear()
     # no source at all is C06's business
 
